@@ -9,6 +9,8 @@ Open Scope N_scope.
 Section Prefix.
 Variable perm : client -> bytes -> bool -> bool.
 Variable matches : bytes -> bytes -> bool.
+Variable is_shared : bytes -> bool.
+Variable eff : bytes -> bytes.
 
 Definition send_will_prefix (st : ast) (cl : client) : ast * list (client * aev) :=
   match assoc cl (a_cl st) with
@@ -17,7 +19,7 @@ Definition send_will_prefix (st : ast) (cl : client) : ast * list (client * aev)
       | Some w =>
           let m := mkM (Some cl) (w_topic w) (w_payload w) (w_qos w) (w_retain w) in
           if w_delay w then (mkAst (a_cl st) (a_subs st) (a_ret st) ((cl, m) :: remove_key cl (a_delayed st)), [])
-          else route perm matches st m
+          else route perm matches is_shared eff (fun _ _ => true) st m
       | None => (st, [])
       end
   | None => (st, [])
@@ -28,26 +30,26 @@ Definition tbl0 : acl_table := [ (tag "s", (tag "#", false)); (tag "s", (tag "d/
                                  (tag "s", (tag "$SYS/w", false)) ].
 (* state: s is subscribed to # and $SYS/#, p is connected with a retained will on [t]; p has no write permission at all *)
 Definition st_will (t : bytes) : ast :=
-  mkAst [(tag "p", mkC 4 true false (Some (mkW t [9] 0 true false)) []); (tag "s", mkC 4 true false None [])]
-        [(tag "s", (tag "#", 0)); (tag "s", (tag "$SYS/#", 0))] [] [].
+  mkAst [(tag "p", mkC 4 true false (Some (mkW t [9] 0 true false)) [] [] []); (tag "s", mkC 4 true false None [] [] [])]
+        [(tag "s", (tag "#", (0, false))); (tag "s", (tag "$SYS/#", (0, false)))] [] [].
 
 Lemma prefix_denied_will_published :
-  let r := send_will_prefix (perm_of tbl0) topic_matches (st_will (tag "d/x")) (tag "p") in
+  let r := send_will_prefix (perm_of tbl0) topic_matches is_share eff_filter (st_will (tag "d/x")) (tag "p") in
   snd r = [(tag "s", ADeliver (mkM (Some (tag "p")) (tag "d/x") [9] 0 true))] /\ map fst (a_ret (fst r)) = [tag "d/x"].
 Proof. vm_compute. split; reflexivity. Qed.
 
 Lemma prefix_sys_will_published :
-  let r := send_will_prefix (perm_of tbl0) topic_matches (st_will (tag "$SYS/w")) (tag "p") in
+  let r := send_will_prefix (perm_of tbl0) topic_matches is_share eff_filter (st_will (tag "$SYS/w")) (tag "p") in
   snd r = [(tag "s", ADeliver (mkM (Some (tag "p")) (tag "$SYS/w") [9] 0 true))] /\ map fst (a_ret (fst r)) = [tag "$SYS/w"].
 Proof. vm_compute. split; reflexivity. Qed.
 
 Lemma prefix_wildcard_will_retained :
-  map fst (a_ret (fst (send_will_prefix (perm_of tbl0) topic_matches (st_will (tag "a/+/#")) (tag "p")))) = [tag "a/+/#"].
+  map fst (a_ret (fst (send_will_prefix (perm_of tbl0) topic_matches is_share eff_filter (st_will (tag "a/+/#")) (tag "p")))) = [tag "a/+/#"].
 Proof. vm_compute. reflexivity. Qed.
 
 (* the repaired code on the same states: nothing is delivered, nothing retained *)
 Lemma fixed_will_not_published :
-  send_will (perm_of tbl0) topic_matches (st_will (tag "d/x")) (tag "p") = (st_will (tag "d/x"), []) /\
-  send_will (perm_of tbl0) topic_matches (st_will (tag "$SYS/w")) (tag "p") = (st_will (tag "$SYS/w"), []) /\
-  send_will (perm_of tbl0) topic_matches (st_will (tag "a/+/#")) (tag "p") = (st_will (tag "a/+/#"), []).
+  send_will (perm_of tbl0) topic_matches is_share eff_filter (fun _ _ => true) (st_will (tag "d/x")) (tag "p") = (st_will (tag "d/x"), []) /\
+  send_will (perm_of tbl0) topic_matches is_share eff_filter (fun _ _ => true) (st_will (tag "$SYS/w")) (tag "p") = (st_will (tag "$SYS/w"), []) /\
+  send_will (perm_of tbl0) topic_matches is_share eff_filter (fun _ _ => true) (st_will (tag "a/+/#")) (tag "p") = (st_will (tag "a/+/#"), []).
 Proof. vm_compute. repeat split. Qed.
